@@ -77,7 +77,15 @@ func (e *Env) pureQueries(rule string) {
 			ok = false
 			c.Undecided(rule, cons, pos, u)
 		}
+		obj, _ := fn.Object().(*types.Func)
+		unexported := obj != nil && !obj.Exported()
 		for _, w := range fe.Writes {
+			// an unexported function writing through one of its parameters (a helper appending to the builder it is
+			// handed) acts on behalf of its callers: the write is attributed to them - to a local of theirs, or to
+			// their own receiver/parameter, where it is reported if they are queries. Writes to globals stay here.
+			if unexported && w.Root.Kind == facts.RParam && !(fn.Signature.Recv() != nil && w.Root.Param == 0) {
+				continue
+			}
 			// tolerated: consuming the caller's io.Reader in ExportWith / getTempleteString
 			if strings.HasPrefix(w.Kind, "extern:io.Copy") || strings.HasPrefix(w.Kind, "extern:io.ReadAll") {
 				if w.Root.Kind == facts.RParam && e.paramIsReader(fn, w.Root.Param) {
